@@ -493,7 +493,7 @@ def _parts_scope(depth, quick):
                     else:
                         for sw1 in range(3):
                             for ov1 in range(3):
-                                parts.append(dict(kind=kind, depth=2, g=g, l=l, sw1=sw1, ov1=ov1))
+                                parts.append(dict(kind=kind, depth=2, g=g, l=l, sw1=sw1, ov1=ov1, gb=0))
                 else:
                     if l == 0:
                         for sw1 in range(3):
